@@ -135,37 +135,24 @@ func (e *env) probesBeforeDump() {
 		logf("stk2-err:%s", gj.ErrKind(o.Err))
 	}
 	// the same through an ExportTo'd Go func
-	var stkObj goja.Value
-	r.Try(func() {
-		// helpers are Callables; rebuild a function value for ExportTo from a tiny program (Function constructor: no RunProgram involved)
-		stkObj = r.GlobalObject().Get("Function")
-	})
-	if ctor, ok := goja.AssertConstructor(stkObj); ok {
-		var fobj *goja.Object
-		e.apiCall("new Function", false, func() (goja.Value, error) {
-			o, err := ctor(nil, r.ToValue("return new Error().stack"))
-			fobj = o
-			return o, err
-		})
-		if fobj != nil {
-			var fn func() (string, error)
-			if err := r.ExportTo(fobj, &fn); err == nil {
-				var s string
-				o = e.apiCall("exported", false, func() (goja.Value, error) {
-					var err error
-					s, err = fn()
-					return nil, err
-				})
-				if o.Err == nil {
-					logf("exp-frames:%d", countFrames(s))
-				} else {
-					logf("exp-err:%s", gj.ErrKind(o.Err))
-				}
+	{
+		var fn func() (string, error)
+		if err := r.ExportTo(e.helperObj.Get("stk"), &fn); err == nil {
+			var str string
+			o = e.apiCall("exported", false, func() (goja.Value, error) {
+				var err error
+				str, err = fn()
+				return nil, err
+			})
+			if o.Err == nil {
+				logf("exp-frames:%d", countFrames(str))
+			} else {
+				logf("exp-err:%s", gj.ErrKind(o.Err))
 			}
 		}
 	}
 	// recursion depth reached before the overflow under a fixed limit
-	for _, lim := range []int{5, 33} {
+	for _, lim := range []int{9} {
 		r.SetMaxCallStackSize(lim)
 		o = e.apiCall("rec", true, func() (goja.Value, error) { return e.helpers["rec"](goja.Undefined()) })
 		r.SetMaxCallStackSize(1 << 30)
@@ -356,11 +343,6 @@ func (e *env) followUp(rebuildFrom string) followRes {
 	}
 	e.battery()
 	e.kitFollowUps(&doc)
-	d2, err := e.dump(false)
-	if err != nil {
-		fr.Err = err.Error()
-	}
-	fr.Dump2 = d2
 	fr.Log = e.events
 	return fr
 }
